@@ -285,9 +285,14 @@ def border(chk, ctx):
         # at least one slot at the first level (snapshots_in_ram >= 1 is asserted by the constructors)
         it = Interp(fn, entry=st, finalize_havoc=False)
         it.DEFAULT_PART = ()
+        it.record_subloads = True
         it.run()
         seen = set()
-        for tgt, s in it.substores:
+        # constant-index reads (`row = optp[k][1]`) fail in the same way as stores
+        store_ids = {id(t) for t, _ in it.substores}
+        accesses = [(t, s_, "store") for t, s_ in it.substores] + \
+            [(t, s_, "load") for t, s_ in it.subloads if id(t) not in store_ids]
+        for tgt, s, how in accesses:
             # tgt: X[a][b][c]
             idxs = []
             cur = tgt
@@ -306,11 +311,15 @@ def border(chk, ctx):
                 key = (cur.id, d, ix.value, tgt.lineno)
                 if key in seen:
                     continue
+                if how == "load":
+                    # only reads that are certainly out of range matter (a read that is in range proves nothing new)
+                    if prove_ge(s, sz - Lin.const(ix.value + 1))[0] is not False:
+                        continue
                 seen.add(key)
                 sites += 1
                 need = sz - Lin.const(ix.value + 1)      # size - (k+1) >= 0
                 res = prove_ge(s, need)
-                cons = f"{rel[:-3].replace('/', '.')}.get_hopt_table#store-{cur.id}[dim{d}={ix.value}]@{cell}"
+                cons = f"{rel[:-3].replace('/', '.')}.get_hopt_table#{how}-{cur.id}[dim{d}={ix.value}]@{cell}"
                 if res[0] is False and cell == "lmax==0":
                     if reach0:
                         chk.decide("C17.BORDER", cons, False,
